@@ -3,7 +3,8 @@
     invariant: the machine is between two items ([pend]), and resolving its pending look-ahead
     ([flush]) gives exactly the state [mk MTop sp co clean] built from the specification state [sp]
     (node_count = atoms so far, prev_node = owner of the next descriptor, anchor = open branches,
-    the three dictionaries, the clean text), with [opt_truthy co] = the [cur] flag of [stale_ring]. *)
+    the three dictionaries, the clean text); the pending order [co] is None wherever a descriptor may
+    be written (it is Some only between a bond symbol and the atom that must follow it). *)
 From Coq Require Import String.
 From Coq Require Import List Ascii ZArith Bool Lia.
 From CGV Require Import Base.PyBase Base.PyVal Gen.FragGen Dialect.DialectImpl Frag.NDict Frag.StripImpl Frag.FragText.
@@ -75,7 +76,7 @@ Proof.
   unfold pend, step, flush. destruct (m_mode m); intros P H; try contradiction; try rewrite H; reflexivity.
 Qed.
 Lemma desc_done_node_count m d : node_count (desc_done m d) = node_count m.
-Proof. unfold desc_done. destruct (opt_truthy (current_order m)); reflexivity. Qed.
+Proof. unfold desc_done. destruct (current_order m); reflexivity. Qed.
 
 (** entering the next item: the pending look-ahead does not swallow its first character *)
 Lemma no_combine m sp co c :
@@ -134,18 +135,18 @@ Proof.
     unfold step, atom_step. cbn [m_mode mk]. destruct (Ascii.eqb c "]"%char); [discriminate|].
     rewrite andb_false_r. cbn [bind]. rewrite set_mode_mk, IH by assumption. now rewrite <- app_assoc.
 Qed.
-Lemma ringch_top_step m c : ringch c = true -> top_step m c = Ok (set_mode (emit m [c]) MRing).
+Lemma ringch_top_step m c : ringch c = true -> top_step m c = Ok (ring_enter m c).
 Proof.
   destruct c as [[] [] [] [] [] [] [] []]; intros H; try discriminate H; reflexivity.
 Qed.
-Lemma run_ring fo sp co : forall ms sm, forallb ringch ms = true ->
-  run fo (mk MRing sp co sm) ms = Ok (mk MRing sp co (sm ++ ms)).
+Lemma run_ring fo sp : forall ms sm, forallb ringch ms = true ->
+  run fo (mk MRing sp None sm) ms = Ok (mk MRing sp None (sm ++ ms)).
 Proof.
   induction ms as [|c r IH]; intros sm H; cbn.
   - now rewrite app_nil_r.
   - cbn in H. apply andb_prop in H. destruct H as [H1 H2].
     unfold step. cbn [m_mode mk]. unfold flush. cbn [m_mode mk]. rewrite ringch_top_step by assumption.
-    cbn [bind]. change (set_mode (emit (set_mode (mk MRing sp co sm) MTop) [c]) MRing) with (mk MRing sp co (sm ++ [c])).
+    cbn [bind]. change (ring_enter (set_mode (mk MRing sp None sm) MTop) c) with (mk MRing sp None (sm ++ [c])).
     rewrite IH by assumption. now rewrite <- app_assoc.
 Qed.
 Lemma marker_ok_ringch m : marker_ok m = true -> exists c ms, m = c :: ms /\ ringch c = true /\ forallb ringch ms = true.
@@ -205,23 +206,23 @@ Proof.
 Qed.
 
 Lemma item_ring fo sp co b m sp1 : marker_ok m = true -> spec_tok fo sp (TRing b m) = Ok sp1 ->
-  item_res fo sp co (ITok (TRing b m)) sp1 (match b with Some x => Some (border x) | None => co end).
+  item_res fo sp co (ITok (TRing b m)) sp1 None.
 Proof.
   intros M E. cbn in E. inversion E; subst sp1; clear E.
   destruct (marker_ok_ringch m M) as [c [ms [-> [Hc Hms]]]].
-  assert (G : forall co' sm, run fo (mk MTop sp co' sm) (c :: ms) = Ok (mk MRing sp co' (sm ++ c :: ms))).
+  assert (G : forall co' sm, run fo (mk MTop sp co' sm) (c :: ms) = Ok (mk MRing sp None (sm ++ c :: ms))).
   { intros co' sm. cbn [run]. change (step fo (mk MTop sp co' sm) c) with (top_step (mk MTop sp co' sm) c).
     rewrite ringch_top_step by assumption. cbn [bind].
-    change (set_mode (emit (mk MTop sp co' sm) [c]) MRing) with (mk MRing sp co' (sm ++ [c])).
+    change (ring_enter (mk MTop sp co' sm) c) with (mk MRing sp None (sm ++ [c])).
     rewrite run_ring by assumption. now rewrite <- app_assoc. }
   unfold item_res, render_item, render_tok.
   destruct b as [b|]; cbn [optb app].
-  - exists (mk MRing sp (Some (border b)) ((s_clean sp ++ [bchar b]) ++ c :: ms)). split; [|split; [exact I|]].
+  - exists (mk MRing sp None ((s_clean sp ++ [bchar b]) ++ c :: ms)). split; [|split; [exact I|]].
     + cbn [run]. assert (S1 : step fo (top sp co) (bchar b) = Ok (mk MTop sp (Some (border b)) (s_clean sp ++ [bchar b])))
         by (destruct b; reflexivity).
       rewrite S1. cbn [bind]. apply G.
     + unfold flush, top. cbn. rewrite <- app_assoc. reflexivity.
-  - exists (mk MRing sp co (s_clean sp ++ c :: ms)). split; [apply G|split; [exact I|reflexivity]].
+  - exists (mk MRing sp None (s_clean sp ++ c :: ms)). split; [apply G|split; [exact I|reflexivity]].
 Qed.
 
 Lemma item_bracket fo sp co body annot : body_ok body = true -> annot_ok annot = true ->
@@ -264,42 +265,41 @@ Proof.
   eexists; split; [reflexivity|split; [exact I|]]. unfold flush, top, mk. cbn. reflexivity.
 Qed.
 
-Lemma item_desc fo sp co d : desc_ok d = true -> d_sym d <> Some BZero -> (d_sym d = None -> opt_truthy co = false) ->
-  item_res fo sp co (IDesc d) (spec_desc sp d) (match d_sym d with None => co | Some _ => None end).
+Lemma item_desc fo sp d : desc_ok d = true ->
+  item_res fo sp None (IDesc d) (spec_desc sp d) None.
 Proof.
-  destruct d as [k l sym]. unfold desc_ok. cbn [d_kind d_label d_sym]. intros H NZ CO.
+  destruct d as [k l sym]. unfold desc_ok. cbn [d_kind d_label d_sym]. intros H.
   apply andb_prop in H. destruct H as [H Hs]. apply andb_prop in H. destruct H as [K L].
   unfold item_res, render_item, desc_text. cbn [d_sym d_kind d_label].
   destruct sym as [b|].
-  - assert (T : opt_truthy (Some (border b)) = true) by (destruct b; try reflexivity; try discriminate Hs; congruence).
-    exists (mk (MDescEnd (k :: l)) sp (Some (border b)) (s_clean sp ++ [bchar b])). split; [|split; [exact I|]].
+  - exists (mk (MDescEnd (k :: l)) sp (Some (border b)) (s_clean sp ++ [bchar b])). split; [|split; [exact I|]].
     + cbn [optb app run].
-      assert (S1 : step fo (top sp co) (bchar b) = Ok (mk MTop sp (Some (border b)) (s_clean sp ++ [bchar b])))
+      assert (S1 : step fo (top sp None) (bchar b) = Ok (mk MTop sp (Some (border b)) (s_clean sp ++ [bchar b])))
         by (destruct b; reflexivity).
       rewrite S1. cbn [bind]. apply desc_scan; assumption.
-    + unfold flush. cbn [m_mode mk]. unfold desc_done. cbn [current_order mk]. rewrite T.
+    + unfold flush. cbn [m_mode mk]. unfold desc_done. cbn [current_order mk].
       unfold top, mk, spec_desc, desc_entry, desc_order, desc_text. cbn. unfold py_drop_last. rewrite removelast_last. reflexivity.
-  - exists (mk (MDescEnd (k :: l)) sp co (s_clean sp)). split; [|split; [exact I|]].
+  - exists (mk (MDescEnd (k :: l)) sp None (s_clean sp)). split; [|split; [exact I|]].
     + cbn [optb app]. apply desc_scan; assumption.
-    + unfold flush. cbn [m_mode mk]. unfold desc_done. cbn [current_order mk]. rewrite (CO eq_refl). reflexivity.
+    + reflexivity.
 Qed.
 
-Lemma item_lead fo sp co d : desc_ok d = true -> s_n sp = 0 -> opt_truthy co = false ->
-  item_res fo sp co (ILead d) (spec_desc sp d) co.
+Lemma item_lead fo sp d : desc_ok d = true -> s_n sp = 0 ->
+  item_res fo sp None (ILead d) (spec_desc sp d) None.
 Proof.
-  destruct d as [k l sym]. unfold desc_ok. cbn [d_kind d_label d_sym]. intros H N CO.
+  destruct d as [k l sym]. unfold desc_ok. cbn [d_kind d_label d_sym]. intros H N.
   apply andb_prop in H. destruct H as [H Hs]. apply andb_prop in H. destruct H as [K L].
   unfold item_res, render_item, desc_text. cbn [d_sym d_kind d_label].
   destruct sym as [b|].
-  - exists (top (spec_desc sp {| d_kind := k; d_label := l; d_sym := Some b |}) co). split; [|split; [exact I|reflexivity]].
+  - exists (top (spec_desc sp {| d_kind := k; d_label := l; d_sym := Some b |}) None). split; [|split; [exact I|reflexivity]].
     replace ("["%char :: (k :: l) ++ "]"%char :: optb (Some b)) with (("["%char :: k :: l ++ ["]"%char]) ++ [bchar b])
       by (cbn; rewrite <- app_assoc; reflexivity).
     rewrite run_app. unfold top at 1. rewrite desc_scan by assumption. cbn [bind run].
     unfold step. cbn [m_mode mk]. unfold combines. cbn [m_mode mk node_count]. rewrite order_lookup_bchar, N. cbn [Nat.eqb bind].
     reflexivity.
-  - exists (mk (MDescEnd (k :: l)) sp co (s_clean sp)). split; [|split; [exact I|]].
+  - exists (mk (MDescEnd (k :: l)) sp None (s_clean sp)). split; [|split; [exact I|]].
     + cbn [optb]. apply desc_scan; assumption.
-    + unfold flush. cbn [m_mode mk]. unfold desc_done. cbn [current_order mk]. rewrite CO. reflexivity.
+    + reflexivity.
 Qed.
 
 (** ** the first character of an item is never swallowed by the look-ahead pending before it *)
@@ -360,8 +360,6 @@ Qed.
 
 (** ** the induction over the items *)
 Definition sres (sp : sst) : result := (s_clean sp, s_desc sp, s_ez sp, s_ann sp).
-Lemma truthy_border b : opt_truthy (Some (border b)) = order_truthy b.
-Proof. destruct b; reflexivity. Qed.
 Lemma finish_pend m : pend m -> finish m = Ok (result_of (flush m)).
 Proof. unfold pend, finish. destruct (m_mode m); intros H; try contradiction; reflexivity. Qed.
 
@@ -369,22 +367,21 @@ Ltac zone_ne := let X := fresh in intros X; discriminate X.
 
 Lemma main fo : forall items z depth m sp co,
   pend m -> flush m = top sp co ->
-  (z = ZStart -> s_n sp = 0 /\ opt_truthy co = false) -> (z <> ZStart -> 1 <= s_n sp) ->
+  (z = ZStart -> s_n sp = 0) -> (z <> ZStart -> 1 <= s_n sp) -> (z <> ZBond -> co = None) ->
   length (s_stack sp) = depth ->
-  wf_items z depth items = true -> has_mult items = false -> nonlead_zero items = false ->
-  stale_ring (opt_truthy co) items = false ->
+  wf_items z depth items = true -> has_mult items = false ->
   whole fo m (render items) = (sp' <- spec_run fo sp items ;; Ok (sres sp')).
 Proof.
-  induction items as [|it r IH]; intros z depth m sp co P F ZS ZN D W HM NZ ST.
+  induction items as [|it r IH]; intros z depth m sp co P F ZS ZN ZC D W HM.
   - unfold whole. cbn. rewrite (finish_pend m P), F. reflexivity.
   - destruct it as [d|t|d].
     + (* leading descriptor *)
       cbn [wf_items] in W. destruct z; try discriminate W. apply andb_prop in W. destruct W as [Wd W].
-      destruct (ZS eq_refl) as [N0 CO].
-      destruct (advance fo m sp co (ILead d) r (spec_desc sp d) co P F Wd (or_introl eq_refl)
-                  (item_lead fo sp co d Wd N0 CO)) as [m1 [P1 [F1 E]]].
+      pose proof (ZS eq_refl) as N0. rewrite (ZC ltac:(discriminate)) in *.
+      destruct (advance fo m sp None (ILead d) r (spec_desc sp d) None P F Wd (or_introl eq_refl)
+                  (item_lead fo sp d Wd N0)) as [m1 [P1 [F1 E]]].
       rewrite E. cbn [spec_run spec_item bind].
-      apply (IH ZStart depth m1 (spec_desc sp d) co); auto.
+      apply (IH ZStart depth m1 (spec_desc sp d) None); auto.
     + (* token *)
       cbn [wf_items] in W. apply andb_prop in W. destruct W as [Wt W].
       destruct t as [e|body annot|b| | |b mk_|f|n].
@@ -412,15 +409,16 @@ Proof.
         assert (N : 1 <= s_n sp) by (apply ZN; destruct z; try discriminate W; zone_ne).
         destruct (advance fo m sp co (ITok (TBond b)) r _ _ P F Wt (or_intror N) (item_bond fo sp co b _ eq_refl)) as [m1 [P1 [F1 E]]].
         rewrite E. cbn [spec_run spec_item spec_tok bind].
-        cbn [stale_ring] in ST. rewrite <- truthy_border in ST.
-        destruct z; try discriminate W; eapply (IH ZBond depth m1 _ _); eauto; try zone_ne.
+        destruct z; try discriminate W; eapply (IH ZBond depth m1 _ _); eauto; try zone_ne;
+          intros X; exfalso; apply X; reflexivity.
       * (* open *)
         apply andb_prop in W. destruct W as [Wz W]. destruct z; try discriminate Wz.
         assert (N : 1 <= s_n sp) by (apply ZN; zone_ne).
         destruct (advance fo m sp co (ITok TOpen) r _ _ P F Wt (or_intror N) (item_open fo sp co _ eq_refl)) as [m1 [P1 [F1 E]]].
         rewrite E. cbn [spec_run spec_item spec_tok bind].
         eapply (IH ZOpen (Datatypes.S depth) m1 _ _); eauto; try zone_ne.
-        cbn. rewrite D. reflexivity.
+        -- intros _. apply ZC. discriminate.
+        -- cbn. rewrite D. reflexivity.
       * (* close *)
         apply andb_prop in W. destruct W as [Wz W]. destruct z; try discriminate Wz.
         destruct depth as [|dep]; [discriminate W|].
@@ -435,29 +433,23 @@ Proof.
         assert (N : 1 <= s_n sp) by (apply ZN; zone_ne).
         destruct (advance fo m sp co (ITok (TRing b mk_)) r _ _ P F Wt (or_intror N) (item_ring fo sp co b mk_ _ Wt eq_refl)) as [m1 [P1 [F1 E]]].
         rewrite E. cbn [spec_run spec_item spec_tok bind].
-        cbn [stale_ring] in ST.
-        destruct b as [b|]; [rewrite <- truthy_border in ST|]; eapply (IH ZAtom depth m1 _ _); eauto; try zone_ne.
+        eapply (IH ZAtom depth m1 _ None); eauto; try zone_ne.
       * (* slash *)
         assert (N : 1 <= s_n sp) by (apply ZN; destruct z; try discriminate W; zone_ne).
         destruct (advance fo m sp co (ITok (TSlash f)) r _ _ P F Wt (or_intror N) (item_slash fo sp co f _ eq_refl)) as [m1 [P1 [F1 E]]].
         rewrite E. cbn [spec_run spec_item spec_tok bind].
-        destruct z; try discriminate W; eapply (IH ZBond depth m1 _ _); eauto; try zone_ne.
+        destruct z; try discriminate W; eapply (IH ZBond depth m1 _ _); eauto; try zone_ne;
+          intros X; exfalso; apply X; reflexivity.
       * (* multiplier: excluded *)
         discriminate HM.
     + (* descriptor after an atom *)
       cbn [wf_items] in W. apply andb_prop in W. destruct W as [W Wr]. apply andb_prop in W. destruct W as [Wz Wd].
       destruct z; try discriminate Wz.
       assert (N : 1 <= s_n sp) by (apply ZN; zone_ne).
-      cbn [nonlead_zero existsb] in NZ. apply orb_false_elim in NZ. destruct NZ as [NZd NZ].
-      assert (NZ' : d_sym d <> Some BZero) by (intros X; rewrite X in NZd; discriminate NZd).
-      cbn [stale_ring] in ST.
-      assert (CO : d_sym d = None -> opt_truthy co = false).
-      { intros X. rewrite X in ST. apply orb_false_elim in ST. tauto. }
-      destruct (advance fo m sp co (IDesc d) r _ _ P F Wd (or_intror N) (item_desc fo sp co d Wd NZ' CO)) as [m1 [P1 [F1 E]]].
+      rewrite (ZC ltac:(discriminate)) in *.
+      destruct (advance fo m sp None (IDesc d) r _ _ P F Wd (or_intror N) (item_desc fo sp d Wd)) as [m1 [P1 [F1 E]]].
       rewrite E. cbn [spec_run spec_item bind].
-      destruct (d_sym d) eqn:Ed.
-      * eapply (IH ZAtom depth m1 _ None); eauto; try zone_ne.
-      * apply orb_false_elim in ST. destruct ST as [_ ST]. eapply (IH ZAtom depth m1 _ co); eauto; try zone_ne.
+      eapply (IH ZAtom depth m1 _ None); eauto; try zone_ne.
 Qed.
 
 (** ** the theorem *)
@@ -467,8 +459,6 @@ Proof.
   intros W X. unfold wf in W. apply andb_prop in W. destruct W as [_ W].
   unfold excluded, excluded_items, class_of in X.
   destruct (has_mult (decorate toks dc)) eqn:HM; [discriminate X|].
-  destruct (nonlead_zero (decorate toks dc)) eqn:NZ; [discriminate X|].
-  destruct (stale_ring false (decorate toks dc)) eqn:ST; [discriminate X|].
   unfold strip_bonding_descriptors, strip_spec, spec_items. rewrite init_top.
   change (m <- run fo (top sinit None) (render (decorate toks dc));; finish m)
     with (whole fo (top sinit None) (render (decorate toks dc))).
